@@ -360,7 +360,9 @@ pub fn run_extract(
     ctx.nontrivial = !members.is_empty();
     ctx.sim_time(1000);
     drop(temp_dirs);
-    let _ = std::fs::remove_dir_all(&root);
+    if std::env::var("VERIF_KEEP").is_err() {
+        let _ = std::fs::remove_dir_all(&root);
+    }
     Ok(())
 }
 
